@@ -30,6 +30,8 @@ mod walk;
 mod replay;
 mod tablescmd;
 mod fencmd;
+mod sancmd;
+mod seecmd;
 
 fn main() {
     // Panics inside the code under test are data: keep the default hook quiet and let
@@ -49,6 +51,8 @@ fn main() {
         "replay-game" => replay::game(rest),
         "tables" => tablescmd::main(rest),
         "fen" => fencmd::main(rest),
+        "san" => sancmd::main(rest),
+        "see" => seecmd::main(rest),
         other => {
             eprintln!("unknown subcommand {other}");
             2
